@@ -373,3 +373,6 @@ Qed.
 
 Theorem scroll_in_range off diff len : 1 <= scroll_down off diff len <= Nat.max (len - 1) 1.
 Proof. unfold scroll_down. lia. Qed.
+
+Theorem scroll_init_in_range req len : 1 <= scroll_init req len <= Nat.max (len - 1) 1.
+Proof. unfold scroll_init. lia. Qed.
